@@ -353,7 +353,13 @@ func (s *sess) finish(err error) error {
 		}
 	}
 	if len(s.taint) > 0 {
-		hx.Known(s.taint[0], v.Error())
+		id := s.taint[0]
+		for _, t := range s.taint {
+			if t == findingOf(v.vec) {
+				id = t
+			}
+		}
+		hx.Known(id, v.Error())
 		return nil
 	}
 	return v
@@ -512,6 +518,14 @@ func (s *sess) probe(i int, p *Probe) error {
 		}
 
 	case "rename":
+		// which object the fid designates now (a kept fid's name may have been
+		// re-bound by an earlier probe)
+		known := false
+		if rs, err := s.rpc(&ref9p.Msg{Type: ref9p.Tstat, Fid: base}); err != nil {
+			return err
+		} else if ok(rs) {
+			baseQid, known = rs.Stat.Qid, true
+		}
 		st := rawc.NoChangeStat()
 		st.Name = p.Names[0]
 		req := &ref9p.Msg{Type: ref9p.Twstat, Fid: base, Stat: st}
@@ -524,7 +538,7 @@ func (s *sess) probe(i int, p *Probe) error {
 		if err != nil {
 			return err
 		}
-		if success && p.Names[0] != "" && !s.e.findInode(baseQid.Path) {
+		if success && known && p.Names[0] != "" && !s.e.findInode(baseQid.Path) {
 			return s.viol("%s succeeded, but the renamed object (inode %d) is no longer inside the exported root", describe(req), baseQid.Path)
 		}
 		if success {
